@@ -94,3 +94,5 @@ package config
 // objects but do not modify existing ones, load no other fileConfig and run no reload
 // callbacks (assumed frames: plain file I/O, decoding and validation).
 //@ assume config.newConfigAndRules
+
+//@ contract config.(*DefaultTrue).Get inline
